@@ -45,8 +45,8 @@ PROPS["C01"] = {
 }
 
 PROPS["C02"] = {
-    "quick": [rapid("TestC02", 60000), plain("TestC02Shapes", shards=4), plain("TestSizeSweep", shards=4), plain("TestProducerConsumerGrid", shards=4), plain("TestNestedCompositions")],
-    "thorough": [rapid("TestC02", 600000, shards=16), plain("TestC02Shapes", shards=4), plain("TestSizeSweep", shards=4), plain("TestProducerConsumerGrid", shards=4), plain("TestNestedCompositions")],
+    "quick": [rapid("TestC02", 60000), plain("TestC02Shapes", shards=4), plain("TestSizeSweep", shards=4), plain("TestProducerConsumerGrid", shards=4), plain("TestNestedCompositions"), plain("TestEqualityUniverse", shards=2)],
+    "thorough": [rapid("TestC02", 600000, shards=16), plain("TestC02Shapes", shards=4), plain("TestSizeSweep", shards=4), plain("TestProducerConsumerGrid", shards=4), plain("TestNestedCompositions"), plain("TestEqualityUniverse", shards=2)],
     "rule": "(a) shape grid: 16 left-hand sides x 18 projection operator chains ([*], .*, [], [?..], slices, two-level combinations) x 18 right-hand sides (null-preserving and not: .k, [0], .type(@), .to_string(@), .not_null(@,1), .[@], .{v:@}, nested projections) x 7 terminators (pipe, paren+index, ||) on 11 documents with empty, heterogeneous, null-containing and nested containers; (b) rapid: G-doc document x document-aware projection-heavy expression ([*], .*, [], [?cond], slices, chained/nested, null-producing and non-null-preserving right-hand sides, functions after projections); oracle: reference evaluator with bag-aware comparison (object-member order free, content exact). Non-trivial: a projection applied its RHS to at least one element (kept or dropped-null), or hit a non-matching LHS, or flattened nested arrays, or a filter rejected an element. Ambiguous cases (order-sensitive use of member lists) are discarded and counted.",
     "assumptions": COMMON_ASSUMPTIONS,
     "min_nontrivial": 1000,
@@ -95,8 +95,8 @@ prop("C08",
      min_nontrivial=10000)
 
 prop("C09",
-     quick=[plain("TestC09Universe"), rapid("TestC09ToNumber", 40000), rapid("TestC09Random", 40000), rapid("TestC09Large", 12000, shards=2), plain("TestSizeSweep", shards=4), plain("TestC09StringSizes"), plain("TestNestedCompositions")],
-     thorough=[plain("TestC09Universe"), rapid("TestC09ToNumber", 800000, shards=4), rapid("TestC09Random", 400000, shards=8), rapid("TestC09Large", 160000, shards=8), plain("TestSizeSweep", shards=4), plain("TestC09StringSizes"), plain("TestNestedCompositions")],
+     quick=[plain("TestC09Universe"), rapid("TestC09ToNumber", 40000), rapid("TestC09Random", 40000), rapid("TestC09Large", 12000, shards=2), plain("TestSizeSweep", shards=4), plain("TestC09StringSizes"), plain("TestNestedCompositions"), plain("TestEqualityUniverse", shards=2)],
+     thorough=[plain("TestC09Universe"), rapid("TestC09ToNumber", 800000, shards=4), rapid("TestC09Random", 400000, shards=8), rapid("TestC09Large", 160000, shards=8), plain("TestSizeSweep", shards=4), plain("TestC09StringSizes"), plain("TestNestedCompositions"), plain("TestEqualityUniverse", shards=2)],
      rule="(a) each of the 26 functions on every well-typed tuple over a typed universe (numbers incl. -0/1e15, strings incl. multi-byte/astral/number-like/non-finite spellings, number/string/object/mixed arrays with duplicates and ties, objects with colliding keys, 11 expression references); (b) to_number on strings over number-ish characters: finite-or-null, exact for JSON numbers, null for clearly non-numeric; (c) random calls and expressions with calls on G-doc documents and on large arrays (<= 120 objects with many key ties, multi-byte strings); (d) 34 array-function expressions (sort_by/max_by/min_by with number, string, negated and computed keys, sort, max, min, sum, avg, reverse, join, map, nested sorts) on arrays of 0..300 elements with 1..6 distinct keys (heavy ties). Oracle: reference function library (stable insertion sort, first extremal element, code-point string handling, later-wins merge, to_string as 'any JSON text decoding to the argument'), bag-aware for keys/values. Non-trivial: the reference evaluation succeeded and at least one function call was evaluated; per-function success counts are in classes (universe-success.<name>; zero for any function is a harness error).",
      technique="differential vs an independent reference function library: exhaustive typed universe per function + random nested calls",
      level_text="Exact equality with the specification's value, hence ordering, permutation and stability of sort_by, first-extremal of max_by/min_by etc. are checked in both directions at once.",
